@@ -29,8 +29,17 @@ import (
 	"strings"
 )
 
+// onDie: writes a names-only JSON side file (special forms, names of every table) when the translator gives up and no
+// tables file exists yet, so that the canary harness still knows what to call (it never decides anything from it).
+var onDie func()
+
 func die(format string, a ...interface{}) {
 	fmt.Fprintf(os.Stderr, "translator/sandbox: SHAPE NOT UNDERSTOOD: "+format+"\n", a...)
+	if onDie != nil {
+		f := onDie
+		onDie = nil
+		f()
+	}
 	os.Exit(2)
 }
 
@@ -1467,6 +1476,48 @@ func main() {
 		p.analyse(nd)
 	}
 	t.computeSetup()
+	onDie = func() {
+		jp := *jsonPath
+		if jp == "" {
+			return
+		}
+		if _, err := os.Stat(jp); err == nil {
+			return // a fuller file of an earlier run exists
+		}
+		names := map[string]bool{}
+		for _, es := range t.tables {
+			for _, e := range es {
+				names[e.name] = true
+			}
+		}
+		for _, nd := range p.nodes {
+			for _, b := range nd.bodies {
+				ast.Inspect(b, func(n ast.Node) bool {
+					if c, ok := n.(*ast.CallExpr); ok {
+						if s, ok := c.Fun.(*ast.SelectorExpr); ok {
+							if _, reg := registerCalls[s.Sel.Name]; reg && len(c.Args) == 2 {
+								if lit, ok := strLit(c.Args[0]); ok {
+									names[lit] = true
+								}
+							}
+						}
+					}
+					return true
+				})
+			}
+		}
+		var ns []string
+		for n := range names {
+			ns = append(ns, n)
+		}
+		sort.Strings(ns)
+		var sfj [][2]string
+		for _, s := range specials {
+			sfj = append(sfj, [2]string{s.Name, s.Fn})
+		}
+		js, _ := json.MarshalIndent(map[string]interface{}{"special_forms": sfj, "all_names": ns, "partial": true}, "", " ")
+		os.WriteFile(jp, js, 0644)
+	}
 
 	// the interpreter's sandbox flag: a field of the interpreter that NewZlispSandbox sets to true
 	if nd, ok := p.nodes["NewZlispSandbox"]; ok && nd.decl.Body != nil {
